@@ -193,6 +193,7 @@ type InstanceResult struct {
 	SolverErrors []string
 	ByTag map[string]int
 	TimeByTag map[string]time.Duration
+	Cross     []CrossResult
 }
 
 type runCfg struct {
@@ -202,6 +203,9 @@ type runCfg struct {
 	solver                     string
 	solverTimeoutMs            int
 	logDir                     string
+	logCap                     int           // transcript cap per instance (bytes) for the cross-solver re-discharge
+	crossSolvers               []string      // other solvers that re-decide the recorded queries
+	crossWall                  time.Duration // wall cap per solver and instance
 }
 
 func findFunc(prog *ssa.Program, full string) *ssa.Function {
@@ -224,9 +228,9 @@ func findFunc(prog *ssa.Program, full string) *ssa.Function {
 	return p.Func(name)
 }
 
-func runInstance(sh *Shared, fn *ssa.Function, params []int, cfg runCfg) InstanceResult {
+func runInstance(sh *Shared, fn *ssa.Function, params []int, cfg runCfg) (res InstanceResult) {
 	start := time.Now()
-	res := InstanceResult{Func: fn.String(), Params: params}
+	res = InstanceResult{Func: fn.String(), Params: params}
 	logPath := ""
 	if cfg.logDir != "" {
 		logPath = filepath.Join(cfg.logDir, fmt.Sprintf("%s-%s.smt2", fn.Name(), joinInts(params, "_")))
@@ -236,7 +240,23 @@ func runInstance(sh *Shared, fn *ssa.Function, params []int, cfg runCfg) Instanc
 		res.Inconclusive = append(res.Inconclusive, "cannot start solver: "+err.Error())
 		return res
 	}
-	defer sol.Close()
+	sol.LogCap = cfg.logCap
+	closed := false
+	defer func() {
+		if !closed {
+			sol.Close()
+		}
+	}()
+	if len(cfg.crossSolvers) > 0 && logPath != "" {
+		defer func() {
+			sol.Close()
+			closed = true
+			for _, k := range cfg.crossSolvers {
+				res.Cross = append(res.Cross, crossCheck(k, logPath, 10000, cfg.crossWall))
+			}
+			os.Remove(logPath)
+		}()
+	}
 	tb := NewTB()
 	ex := &Explorer{}
 	deadline := start.Add(cfg.timeout)
@@ -384,6 +404,11 @@ func main() {
 		cmdCheck(os.Args[2:])
 	case "run":
 		cmdRun(os.Args[2:])
+	case "crosscheck": // gosym crosscheck <transcript.smt2>: re-decide a recorded transcript on the other solvers
+		for _, k := range []string{"z3-new", "cvc5"} {
+			b, _ := json.Marshal(crossCheck(k, os.Args[2], 10000, 10*time.Minute))
+			fmt.Println(string(b))
+		}
 	default:
 		fatal("unknown sub-command %s", os.Args[1])
 	}
